@@ -25,21 +25,35 @@ type Material struct {
 }
 
 var (
-	once sync.Once
-	pool []*Material
+	once     sync.Once
+	pool     []*Material
+	renewals []*Material
 )
+
+// WithRenewals returns n materials, each followed by its renewal: a new serving certificate (other serial number)
+// for the SAME private key, signed by the same CA - what a certificate rotation that keeps the key produces.
+func WithRenewals(n int) []*Material {
+	ms := Pool(n)
+	var out []*Material
+	for i, m := range ms {
+		out = append(out, m, renewals[i])
+	}
+	return out
+}
 
 // Pool returns n (<= 6) independent materials.
 func Pool(n int) []*Material {
 	once.Do(func() {
 		for i := 0; i < 6; i++ {
-			pool = append(pool, gen(fmt.Sprintf("ca-%d", i)))
+			m, r := gen(fmt.Sprintf("ca-%d", i))
+			pool = append(pool, m)
+			renewals = append(renewals, r)
 		}
 	})
 	return pool[:n]
 }
 
-func gen(name string) *Material {
+func gen(name string) (*Material, *Material) {
 	caKey, err := ecdsa.GenerateKey(elliptic.P256(), rand.Reader)
 	if err != nil {
 		panic(err)
@@ -63,7 +77,7 @@ func gen(name string) *Material {
 	}
 	cert, _ := x509.ParseCertificate(der)
 	kb, _ := x509.MarshalECPrivateKey(key)
-	return &Material{
+	m := &Material{
 		Name:    name,
 		CAPEM:   pem.EncodeToMemory(&pem.Block{Type: "CERTIFICATE", Bytes: caDER}),
 		CertPEM: pem.EncodeToMemory(&pem.Block{Type: "CERTIFICATE", Bytes: der}),
@@ -71,4 +85,14 @@ func gen(name string) *Material {
 		CACert:  caCert,
 		Cert:    cert,
 	}
+	// the renewal: same key, same CA, another serial number
+	tmpl2 := *tmpl
+	tmpl2.SerialNumber = big.NewInt(3)
+	der2, err := x509.CreateCertificate(rand.Reader, &tmpl2, caCert, &key.PublicKey, caKey)
+	if err != nil {
+		panic(err)
+	}
+	cert2, _ := x509.ParseCertificate(der2)
+	r := &Material{Name: name + "-renewed", CAPEM: m.CAPEM, CertPEM: pem.EncodeToMemory(&pem.Block{Type: "CERTIFICATE", Bytes: der2}), KeyPEM: m.KeyPEM, CACert: caCert, Cert: cert2}
+	return m, r
 }
